@@ -1,3 +1,4 @@
+import BstreamVerif.Lemmas.Complete
 import BstreamVerif.Lemmas.StepCheckSound
 import BstreamVerif.Props.C02
 import BstreamVerif.Props.C01
@@ -6,8 +7,9 @@ import BstreamVerif.Props.C01
 
 `window_after_lib_move`: after every LIB move nothing below LIB − retention is stored; `purge_keeps_window`: and
 nothing at or above it is removed; `stored_when_linked` / `lookup_by_hash`: a block that was linked is returned by
-hash; `head_is_last_new`: HeadInfo is the last block delivered as New. The canonical lookup and LowestBlockNum are
-compared with the consumer's chain by the C18 monitors on every run.
+hash; `head_is_last_new`: HeadInfo is the last block delivered as New. `canonical_lookup_on_consumer_chain` / `history_canonical_lookup`: the canonical lookup at the height of a block of the
+consumer's pending chain returns that block. LowestBlockNum and the lookup on retained *final* blocks are compared
+with the consumer's chain by the C18 monitors on every run.
 -/
 namespace BstreamVerif.Props.C18
 open BstreamVerif BstreamVerif.Forkable BstreamVerif.ForkDB
@@ -154,5 +156,85 @@ theorem history_lookup_complete (cfg : Config) (hnew : cfg.matches .new = true) 
           · exact hin g (by simp)) hK1
     rw [Props.C01.runHistory_cons]
     simpa [List.append_assoc] using this
+
+/-- **the canonical lookup at a height present on the consumer's chain returns exactly that chain's block** (state
+    level: any state of the invariant; `P` is the consumer's pending chain, from the LIB to the last block delivered
+    as New): `BlockInCurrentChain` is complete along it (`Lemmas/Complete.blockInChain_complete`) -/
+theorem canonical_lookup_on_consumer_chain (s : FState) (P : List Id) (hI : Inv s P) (l : Blk)
+    (hls : s.lastSent = some l) (hlast : ∀ e, s.db.find l.id = some e → e.blk.num = l.num)
+    (x : Id) (hx : x ∈ P) (ex : Entry) (hfx : s.db.find x = some ex) :
+    canonicalBlockAt s ex.blk.num = some ex.blk := by
+  unfold canonicalBlockAt
+  rw [hls]
+  simp only
+  have htop := hI.topSome l hls
+  obtain ⟨pre, post, hP⟩ := List.append_of_mem hx
+  have hP' : P = (pre ++ [x]) ++ post := by rw [hP]; simp
+  have hxne : x ≠ "" := fun h0 => wf_path_ne _ hI.wf _ P hI.path (h0 ▸ hx)
+  have hres : s.db.blockInChain l.ref ex.blk.num = ⟨x, ex.blk.num⟩ := by
+    by_cases hpost : post = []
+    · subst hpost
+      have hid : x = l.id := by rw [← htop, hP']; simp
+      have hnum : ex.blk.num = l.num := hlast ex (by rw [← hid]; exact hfx)
+      unfold DB.blockInChain
+      rw [if_pos (by simp [Blk.ref, hnum])]
+      simp [Blk.ref, hid, hnum]
+    · have hp := hI.path
+      rw [hP', isPath_append] at hp
+      simp only [topOf_append_singleton] at hp
+      have hnd := isPath_nodup _ _ P hI.path hI.libNotin
+      have hxpost : x ∉ post := by
+        rw [hP] at hnd
+        exact (List.nodup_cons.mp (List.nodup_append.mp hnd).2.1).1
+      have htop2 : topOf x post = l.id := by rw [← htop, hP', topOf_append]; simp
+      have hlpost : l.id ∈ post := by
+        rcases topOf_mem x post with h | h
+        · exfalso
+          rcases List.eq_nil_or_concat post with h0 | ⟨p0, z, hz⟩
+          · exact hpost h0
+          · rw [List.concat_eq_append] at hz; subst hz
+            simp only [topOf_append_singleton] at h
+            exact hxpost (by rw [← h]; simp)
+        · rw [htop2] at h; exact h
+      obtain ⟨el, hfl⟩ : ∃ e, s.db.find l.id = some e := by
+        have := isPath_present _ _ _ hp.2 l.id hlpost
+        cases hfr : s.db.find l.id with
+        | none => rw [hfr] at this; cases this
+        | some er => exact ⟨er, rfl⟩
+      have hlow : ex.blk.num < el.blk.num :=
+        heights_path s.db hI.heights x ex.blk.num post hp.2
+          (fun e he hpar => hI.heights.1 e he ex (find_mem _ _ ex hfx) (by rw [hpar, find_id _ _ ex hfx])) l.id hlpost el hfl
+      exact blockInChain_complete s.db hI.heights x ex hfx post hp.2 hpost
+        (isPath_length_le _ x post hp.2 hxpost) l.ref (by rw [htop2]; rfl)
+        (by show l.num ≠ ex.blk.num; rw [← hlast el hfl]; omega)
+  rw [hres]
+  simp [hxne, hfx]
+
+/-- **along every history of blocks of one consistent block tree** (hypotheses on the input only): after the history,
+    the canonical lookup at the height of any block of the consumer's pending chain returns that block -/
+theorem history_canonical_lookup (cfg : Config) (hnew : cfg.matches .new = true) (hundo : cfg.matches .undo = true)
+    (hirr : cfg.matches .irreversible = true) (U : Id → Option Blk) (hU : UOK U) (h : List Blk) (F : List Id)
+    (s : FState) (P : List Id) (hI : Inv s P) (hJ : Inv2 U F s.db) (hH : HeadU U s)
+    (hin : ∀ b ∈ h, U b.id = some b) (hL : Props.C01.LibHistOK cfg s h)
+    (hincl : s.includeInit = false ∨ s.lastSent.isSome = true) :
+    ∃ P', Inv (runHistory cfg s h).1 P' ∧
+      ∀ x ∈ P', ∀ ex, (runHistory cfg s h).1.db.find x = some ex →
+        canonicalBlockAt (runHistory cfg s h).1 ex.blk.num = some ex.blk := by
+  obtain ⟨P', F', hI', hJ', hH'⟩ := Props.C01.history_all_invariants_consistent cfg hnew hundo hirr U hU h F s P hI hJ hH
+    hin hL hincl
+  refine ⟨P', hI', ?_⟩
+  intro x hx ex hfx
+  cases hls : (runHistory cfg s h).1.lastSent with
+  | none =>
+    have := (hI'.topNone hls).1
+    rw [this] at hx; cases hx
+  | some l =>
+    obtain ⟨bl, hbl, hnum⟩ := hH' l hls
+    apply canonical_lookup_on_consumer_chain _ P' hI' l hls _ x hx ex hfx
+    intro e he
+    have h1 := hJ'.inU e (find_mem _ _ e he)
+    rw [find_id _ _ e he, hbl] at h1
+    injection h1 with h1
+    rw [← h1]; exact hnum
 
 end BstreamVerif.Props.C18
